@@ -1335,40 +1335,55 @@ class ComputeGraph(MultiDiGraph):
 
         # transform expression arguments into strings
         expr_args = []
+        unplaced = {}
         for arg in expr.args:
             expr_part, args, _, _ = self._expr_to_str(arg, **kwargs)
             arg_str = str(arg)
             if arg_str not in expr_str and arg_str.startswith('-') and expr_part.startswith('-'):
                 # inside a sum sympy prints a negative term as `... - 0.75*f(x)`, not as `... + -0.75*f(x)`
                 expr_str = expr_str.replace(f"- {arg_str[1:]}", f"- {expr_part[1:]}")
+            elif arg_str not in expr_str and expr_part != arg_str:
+                # inside a product sympy prints a reciprocal `1/f(x)` as `.../f(x)`: the rewritten argument has no
+                # textual counterpart in the string of its parent
+                unplaced[arg] = expr_part
             else:
                 expr_str = expr_str.replace(arg_str, expr_part)
             index_args.extend(args)
             expr_args.append(expr_part)
+        if unplaced:
+            # print the parent once more with placeholders for all rewritten arguments and insert their strings
+            placeholders = {arg: Symbol(f"pyrates_placeholder_{i}_") for i, arg in enumerate(expr.args)
+                            if arg in unplaced or str(arg) != expr_args[i]}
+            expr_str = str(expr.func(*[placeholders.get(arg, arg) for arg in expr.args], evaluate=False)
+                           if placeholders else expr)
+            for i, arg in enumerate(expr.args):
+                if arg in placeholders:
+                    expr_str = expr_str.replace(str(placeholders[arg]), f"({expr_args[i]})")
         var = str(expr_args[0]) if expr.args else ""
+        func_name = str(getattr(expr, 'func', ''))
 
         # process indexing operations
         #############################
 
-        if 'index_1d(' in expr_str:
+        if 'index_1d(' in expr_str and func_name == 'index_1d':
 
             # replace `index` calls with brackets-based indexing
             idx = self._get_var_idx(idx=(expr.args[1],), args=index_args, apply=apply, **kwargs)
             func = 'index_1d'
 
-        elif 'index_2d(' in expr_str:
+        elif 'index_2d(' in expr_str and func_name == 'index_2d':
 
             # replace `2d_index` calls with brackets-based indexing
             idx = self._get_var_idx(idx=(expr.args[1], expr.args[2]), args=index_args, apply=apply, **kwargs)
             func = 'index_2d'
 
-        elif 'index_range(' in expr_str:
+        elif 'index_range(' in expr_str and func_name == 'index_range':
 
             # replace `range_index` calls with brackets-based indexing
             idx = self._get_var_idx(idx=((expr.args[1], expr.args[2]),), args=index_args, apply=apply, **kwargs)
             func = 'index_range'
 
-        elif 'index_axis(' in expr_str:
+        elif 'index_axis(' in expr_str and func_name == 'index_axis':
 
             # replace `axis_index` calls with brackets-based indexing
             if len(expr.args) < 2:
